@@ -112,6 +112,27 @@ def contradictory_cases():
     return out
 
 
+def format_item_cases():
+    """arrays whose items are strings with a format decoded by the runtime helper types (time, date, date-time, ipv4): the length limits apply to the
+    array, and every element the helper type accepts - fractional seconds included - is an element"""
+    from vlib.kitchen import Case
+    out = []
+    for i, (fmt, good, bad) in enumerate((("time", ["09:00:00", "12:30:00.250", "23:59:59.999999999", "00:00:00"], ["25:00:00", "noon"]),
+                                          ("date", ["2024-02-29", "0987-06-05", "9999-12-31"], ["2023-02-29", "yesterday"]),
+                                          ("date-time", ["2024-01-02T03:04:05Z", "2024-01-02T03:04:05.678+02:00"], ["2024-01-02"]),
+                                          ("ipv4", ["10.0.0.1", "255.255.255.255"], ["256.1.1.1"]))):
+        root = {"type": "object", "properties": {"slots": {"type": "array", "items": {"type": "string", "format": fmt}, "minItems": 1, "maxItems": 3}, "one": {"type": "string", "format": fmt}}}
+        docs = [{"doc": {"slots": good[:k]}, "cls": "items-valid" if 1 <= k <= 3 else "items", "path": ("slots",), "expect": "ACC" if 1 <= k <= 3 else "REJ"} for k in range(0, min(len(good), 4) + 1)]
+        docs.append({"doc": {"slots": [good[0]] * 4}, "cls": "items", "path": ("slots",), "expect": "REJ"})
+        for g in good:
+            docs.append({"doc": {"slots": [good[0], g]}, "cls": "items-valid", "path": ("slots", 1), "expect": "ACC"})
+            docs.append({"doc": {"one": g}, "cls": "valid", "path": ("one",), "expect": "ACC"})
+        for b in bad:
+            docs.append({"doc": {"slots": [good[0], b]}, "cls": "format", "path": ("slots", 1), "expect": "REJ"})
+        out.append(Case("c07fi%d" % i, root, docs, fam="format-items/" + fmt, no_model=True))
+    return out
+
+
 def run(ctx):
     ctx.proof_step(PROPS_FILE)
     sysm = systematic()
@@ -126,7 +147,7 @@ def run(ctx):
     ct = contradictory_cases() + null_and_deep_cases()
     from vlib.overlay import sibling_group_cases
     from vlib.valuecheck import expect_cases
-    sg = sibling_group_cases("items", "c07")
+    sg = sibling_group_cases("items", "c07") + format_item_cases()
     run_cases(ctx, cases + ct + sg, "c07")
     expect_cases(ctx, sg, "array limits")
     nct = 0
